@@ -126,3 +126,4 @@ func init() {
 		Prepare:     hTest("props/c22", "^TestC22", hOpts{QShards: 8, TShards: 16, QTimeout: 8 * time.Minute, TTimeout: 60 * time.Minute}),
 	}
 }
+
